@@ -122,7 +122,9 @@ func (o cliOpts) key() string { return o.Header + "|" + o.Prefix + "|" + o.Tags 
 
 // unusable: the header option names something that cannot serve as the start of a Go file
 // (no such file, a directory, plain text, a comment that never closes)
-func (o cliOpts) unusable() bool { return o.Header != "" && o.Header != "ok" }
+func (o cliOpts) unusable() bool {
+	return o.Header != "" && o.Header != "ok" || strings.ContainsAny(o.Tags, "\n\r")
+}
 
 func (o cliOpts) args(cmd string, headerPath string) []string {
 	var a []string
@@ -138,8 +140,8 @@ func (o cliOpts) args(cmd string, headerPath string) []string {
 			a = append(a, "-header_file", headerPath+".notgo")
 		case "opencomment":
 			a = append(a, "-header_file", headerPath+".opencomment")
-		case "gobuild":
-			a = append(a, "-header_file", headerPath+".gobuild")
+		case "gobuild", "gobuildtab", "gobuildindent":
+			a = append(a, "-header_file", headerPath+"."+o.Header)
 		}
 	}
 	if cmd == "gen" && o.Prefix != "" {
@@ -171,6 +173,8 @@ func prepareModule(e *Env, root string, progs []*Program) error {
 		}
 	}
 	os.WriteFile(filepath.Join(root, "header.txt.notgo"), []byte("Copyright 2026 Example Inc. All rights reserved.\n\n"), 0o644)
+	os.WriteFile(filepath.Join(root, "header.txt.gobuildtab"), []byte("//go:build\tlinux\n\n"), 0o644)
+	os.WriteFile(filepath.Join(root, "header.txt.gobuildindent"), []byte("// Copyright 2026 Example Inc.\n\n  //go:build linux\n\n"), 0o644)
 	os.WriteFile(filepath.Join(root, "header.txt.gobuild"), []byte("// Copyright 2026 Example Inc.\n\n//go:build linux\n\n"), 0o644)
 	os.WriteFile(filepath.Join(root, "header.txt.opencomment"), []byte("/* Copyright 2026 Example Inc.\n   All rights reserved.\n"), 0o644)
 	return os.WriteFile(filepath.Join(root, "header.txt"), []byte(headerText), 0o644)
@@ -204,6 +208,7 @@ func (rc *refCache) get(p *Program, o cliOpts) ([]byte, error) {
 	o2.Prefix = ""
 	if o2.unusable() {
 		o2.Header = ""
+		o2.Tags = ""
 	}
 	args := append([]string{"gen"}, o2.args("gen", filepath.Join(root, "header.txt"))...)
 	args = append(args, "./"+p.ID+"/app")
@@ -434,12 +439,12 @@ func runCLI(e *Env, rep *Report, rc *refCache, s cliScenario, cmd string, mu *sy
 		}
 	}
 	obs := fmt.Sprintf("exit=%d changed=%v\nstderr:\n%s", res.Exit, changed, tail(res.Stderr, 1500))
-	if os.Getenv("VERIF_DEBUG_C17") != "" && s.Opts.Header == "gobuild" {
+	if os.Getenv("VERIF_DEBUG_C17") != "" && strings.HasPrefix(s.Opts.Header, "gobuild") {
 		fmt.Fprintf(os.Stderr, "DEBUG %s %s %+v\n%s\n", s.ID, cmd, s.Opts, obs)
 	}
 	switch cmd {
 	case "gen":
-		if s.Opts.Header == "gobuild" && res.Exit == 0 {
+		if strings.HasPrefix(s.Opts.Header, "gobuild") && res.Exit == 0 {
 			// wire may also cope with such a header; what it writes must then still be excluded
 			// from the wireinject build, or its own next run trips over it
 			for _, c := range changed {
@@ -453,11 +458,11 @@ func runCLI(e *Env, rep *Report, rc *refCache, s cliScenario, cmd string, mu *sy
 		}
 		if s.Opts.unusable() {
 			if res.Exit == 0 {
-				fail("gen with an unusable header file ("+s.Opts.Header+") exited 0", obs)
+				fail(fmt.Sprintf("gen with an unusable option (header %q, tags %q) exited 0", s.Opts.Header, s.Opts.Tags), obs)
 				return
 			}
 			if len(changed) > 0 {
-				fail("gen with an unusable header file ("+s.Opts.Header+") modified the tree", obs)
+				fail(fmt.Sprintf("gen with an unusable option (header %q, tags %q) modified the tree", s.Opts.Header, s.Opts.Tags), obs)
 				return
 			}
 			break
@@ -467,6 +472,15 @@ func runCLI(e *Env, rep *Report, rc *refCache, s cliScenario, cmd string, mu *sy
 			// prefix: whatever wire does, it must not write anywhere else
 			if len(changed) > 0 {
 				fail(fmt.Sprintf("gen with a path separator in -output_file_prefix (%q) created or modified %v", prefix, changed), obs)
+				return
+			}
+			break
+		}
+		if (strings.HasPrefix(prefix, "_") || strings.HasPrefix(prefix, ".")) && res.Exit != 0 {
+			// the go tool would ignore such a file: refusing the prefix is fine (writing a file
+			// that is then ignored is not, see below)
+			if len(changed) > 0 {
+				fail(fmt.Sprintf("gen refused -output_file_prefix %q but created or modified %v", prefix, changed), obs)
 				return
 			}
 			break
@@ -501,6 +515,30 @@ func runCLI(e *Env, rep *Report, rc *refCache, s cliScenario, cmd string, mu *sy
 				return
 			}
 		}
+		if prefix != "" && res.Exit == 0 {
+			// the file has to be one the go tool compiles: it must be among the package's Go files
+			for _, p := range pkgs {
+				if p.Class != 'S' || p.Prior == "dirsquat" {
+					continue
+				}
+				// a stale or garbage wire_gen.go from before is the scenario's, not wire's
+				os.Remove(filepath.Join(root, p.P.ID, "app", "wire_gen.go"))
+				lr := e.Run(root, e.GoEnv(), 300*time.Second, "go", "list", "-f", "{{join .GoFiles \" \"}}", "./"+p.P.ID+"/app")
+				if lr.TimedOut || lr.Exit != 0 {
+					continue
+				}
+				listed := false
+				for _, f := range strings.Fields(lr.Stdout) {
+					if f == prefix+"wire_gen.go" {
+						listed = true
+					}
+				}
+				if !listed {
+					fail(fmt.Sprintf("gen -output_file_prefix %q reported success, but the go tool does not count %swire_gen.go among the files of the package (its injectors stay unimplemented)", prefix, prefix), obs+"\n--- go list GoFiles\n"+lr.Stdout)
+					return
+				}
+			}
+		}
 	case "diff":
 		if len(changed) > 0 {
 			fail("diff modified the tree", obs)
@@ -512,14 +550,18 @@ func runCLI(e *Env, rep *Report, rc *refCache, s cliScenario, cmd string, mu *sy
 			want = 2
 		case anyF:
 			want = 2
+		case anyWriteFault:
+			// something that is not a file sits where the output belongs: the comparison
+			// cannot be made
+			want = 2
 		case anyDiff:
 			want = 1
 		}
-		if s.Opts.Header == "gobuild" && res.Exit == 2 {
+		if strings.HasPrefix(s.Opts.Header, "gobuild") && res.Exit == 2 {
 			// refusing such a header is one of the two correct ways to treat it
 			break
 		}
-		if s.Opts.Header == "gobuild" {
+		if strings.HasPrefix(s.Opts.Header, "gobuild") {
 			// ... coping with it is the other: then diff compares as usual
 			want = 0
 			if anyF {
@@ -575,7 +617,7 @@ func CheckC17(e *Env) int {
 	// every unusable header kind and every out-of-directory prefix once with a package that
 	// would otherwise be written
 	k := 0
-	for _, hk := range []string{"missing", "dir", "notgo", "opencomment", "gobuild"} {
+	for _, hk := range []string{"missing", "dir", "notgo", "opencomment", "gobuild", "gobuildtab", "gobuildindent"} {
 		s := genScenario(e, 7*k+2)
 		k++
 		s.ID = fmt.Sprintf("sh%02d", k)
@@ -583,6 +625,20 @@ func CheckC17(e *Env) int {
 		s.Form = "gen ./..."
 		s.Pkgs = append(s.Pkgs[:1:1], cliPkg{P: cliS(k % 6), Class: 'S', Prior: []string{"stale", "absent", "identical"}[k%3]})
 		for _, cmd := range []string{"gen", "diff"} {
+			jobs = append(jobs, job{s, cmd})
+		}
+	}
+	for _, o := range []cliOpts{{Tags: "a\nvar"}, {Tags: "a\n//go:build foo\n//"}, {Header: "ok", Tags: "x\ry"}, {Prefix: "_"}, {Prefix: "."}, {Prefix: "_gen."}} {
+		s := genScenario(e, 7*k+2)
+		k++
+		s.ID = fmt.Sprintf("sh%02d", k)
+		s.Opts = o
+		s.Form = "gen ./..."
+		s.Pkgs = []cliPkg{{P: cliS(k % 6), Class: 'S', Prior: []string{"stale", "absent", "identical"}[k%3]}, {P: cliS((k + 1) % 6), Class: 'S', Prior: "identical"}}
+		for _, cmd := range []string{"gen", "diff"} {
+			if cmd == "diff" && o.Prefix != "" {
+				continue
+			}
 			jobs = append(jobs, job{s, cmd})
 		}
 	}
